@@ -50,6 +50,8 @@ const (
 	sigF15        = "F15:poll_oneoff-nsubscriptions-byte-size-wraps-uint32"
 	sigF16Alloc   = "F16:fd_renumber-host-allocation-proportional-to-target-fd"
 	sigF16Exhaust = "F16:fd_renumber-to-2^31-1-exhausts-host-memory"
+	sigF25        = "F25:poll_oneoff-sleeps-2^63-1ns-without-clock-subscription"
+	maxSaneSleep  = int64(1) << 62 // ~146 years
 )
 
 // ---------------------------------------------------------------------------------------------
@@ -232,6 +234,13 @@ func monitor(cs Case, o outcome, img []byte) []finding {
 			sig = sigF16Alloc
 		}
 		fs = append(fs, finding{"impl-violation", sig, fmt.Sprintf("%s(%s) [%s] made the host allocate %d bytes during one call (guest memory %d bytes, limit %d)", cs.Fn, fmtArgs(cs.Args), cs.State, r.Alloc, r.MemSize, heapLimit), r.Alloc})
+	}
+	if r.SleepNS >= maxSaneSleep {
+		sig := "C15:host-sleeps-forever:" + cs.Fn
+		if cs.Fn == "poll_oneoff" {
+			sig = sigF25
+		}
+		fs = append(fs, finding{"impl-violation", sig, fmt.Sprintf("%s(%s) [%s,%s] asked the host to sleep %d ns (a real Nanosleep never returns: the call hangs)", cs.Fn, fmtArgs(cs.Args), cs.State, cs.Img, r.SleepNS), r.SleepNS})
 	}
 	if r.TableMsg != "" {
 		fs = append(fs, finding{"impl-violation", "C15:descriptor-table-corrupt:" + cs.Fn, fmt.Sprintf("%s(%s): %s", cs.Fn, fmtArgs(cs.Args), r.TableMsg), nil})
